@@ -156,15 +156,17 @@ static double det3(const double *m)
 }
 
 template <typename VEC>
-static void sweep(const char *tname, const std::vector<double> &ev, const Grid &G, const double *t)
+static void sweep(const char *tname, const std::vector<double> &ev, const Grid &G, const double *t, const char *label = nullptr)
 {
+  if (!label)
+    label = tname;
   const int E = (int)ev.size();
   long long nm = 1;
   for (int i = 0; i < 9; i++)
     nm *= E;
   Tally T;
   std::atomic<long long> singular(0);
-  const uint64_t seed = vr::fnv(std::string(tname));
+  const uint64_t seed = vr::fnv(std::string(label));
   c05::parallel_items((nm + 255) / 256, 1, [&](long long blk, Counters &C) {
     uint64_t h = seed + blk;
     for (long long code = blk * 256; code < std::min(nm, blk * 256 + 256); code++) {
@@ -181,13 +183,13 @@ static void sweep(const char *tname, const std::vector<double> &ev, const Grid &
       check_map<VEC>(tname, G, m, t, -1, C, h, T);
     }
     vr::outcome(h);
-  }, tname);
-  vr::stat(std::string("maps_") + tname, T.maps);
-  vr::stat(std::string("singular_skipped_") + tname, singular);
-  vr::stat(std::string("boxes_not_tight_") + tname, T.not_tight);
+  }, label);
+  vr::stat(std::string("maps_") + label, T.maps);
+  vr::stat(std::string("singular_skipped_") + label, singular);
+  vr::stat(std::string("boxes_not_tight_") + label, T.not_tight);
   vr::sample(std::string("xfmBounds(") + tname + "): " + std::to_string((long long)T.maps) + " rank-3 maps with entries from {" + num(ev.front()) + ".." + num(ev.back()) + "} (" + std::to_string(E) +
           " values), translation " + v3s(t) + ", x " + std::to_string(G.B.size()) + " boxes, every grid point of each box",
-      tname);
+      label);
 }
 
 int main(int argc, char **argv)
@@ -229,12 +231,14 @@ int main(int argc, char **argv)
   }
   const double t0[3] = {0, 0, 0}, t1[3] = {1, -2, 0.5};
   const double e4[] = {-1, 0, 0.5, 2}, e5[] = {-1, 0, 0.5, 1, 2};
+  const std::vector<double> E4(e4, e4 + 4), E5(e5, e5 + 5);
   if (!vr::thorough()) {
-    sweep<vec3f>("3f", std::vector<double>(e4, e4 + 4), coarse, t1);
-    sweep<vec3fa>("3fa", std::vector<double>(e4, e4 + 4), coarse, t0);
+    sweep<vec3f>("3f", E4, coarse, t1);
+    sweep<vec3fa>("3fa", E4, coarse, t0);
   } else {
-    sweep<vec3f>("3f", std::vector<double>(e5, e5 + 5), fine, t1);
-    sweep<vec3fa>("3fa", std::vector<double>(e5, e5 + 5), coarse, t0);
+    sweep<vec3f>("3f", E5, coarse, t1);
+    sweep<vec3f>("3f", E4, fine, t1, "3f-fine");
+    sweep<vec3fa>("3fa", E5, coarse, t0);
   }
   vr::stat("traces", vr::S().stats["states"]);
   return vr::finish();
